@@ -1,6 +1,7 @@
 import BluetoeModel.AttNotify.Layout
 import BluetoeModel.AttNotify.Sorted
 import BluetoeModel.AttNotify.QueueLemmas
+import BluetoeModel.AttNotify.Outstanding
 /-!
   # C10 — Notifications carry the requested characteristic to subscribed clients only
 
@@ -312,7 +313,7 @@ theorem output_correct (d : ServerDecl) (st : State) (ci : Nat) (conn : Conn) (s
               opcodeOf k :: (le16 hd ++ m.take (min (min size (min d.mtu conn.clientMtu) - 3) c.size))
             else []) := by
   have hv := valueAttrAt_layout d c idx (mem_attrLayout_of_cccdChar d j c idx hj)
-  simp only [l2capOutput, hconn, hdeq, find_by_index_correct d j c idx hj, hf]
+  simp only [l2capOutput, l2capOutputGen, hconn, hdeq, find_by_index_correct d j c idx hj, hf]
   by_cases h1 : f &&& k.bit ≠ 0 ∧ 3 ≤ min size (min d.mtu conn.clientMtu)
   · rw [if_pos h1]
     simp only [readValueAttr, hv, hm, hh]
@@ -484,19 +485,112 @@ theorem no_read_access_never_transmits (d : ServerDecl) (st : State) (ci : Nat) 
   rw [output_correct d st ci conn size j c idx k q hd f m hconn hj hdeq hh hm hlen hf]
   rw [if_neg (by intro h; have := h.2.2; rw [hr] at this; cases this)]
 
-/-- an indication requested for a characteristic the client did not subscribe for indications is
-    dequeued, not sent, and nevertheless leaves the queue waiting for a confirmation: further
-    indications on this connection are held back until a Handle Value Confirmation arrives that no
-    client has a reason to send (C11's subject; recorded here because this model exhibits it) -/
+/-- before fixes/attnotify-03 (C11): an indication requested for a characteristic the client did
+    not subscribe for indications was dequeued, not sent, and nevertheless left the queue waiting
+    for a confirmation: further indications on this connection were held back until a Handle
+    Value Confirmation arrived that no client has a reason to send -/
 theorem unsubscribed_indication_blocks_witness :
     let st0 := State.init exampleDecl [[0xaa], [0xb1, 0xb2]] 2
-    let st1 := (step exampleDecl st0 (.subscribe 0 1 2)).1                      -- B: indications
-    let st2 := (step exampleDecl st1 (.request 0 (.byValue 0) .indication)).1  -- indicate( a ): not subscribed
-    let st3 := (step exampleDecl st2 (.output 0 23)).1                         -- nothing sent …
-    let st4 := (step exampleDecl st3 (.request 0 (.byValue 1) .indication)).1  -- indicate( b ): subscribed
+    let st1 := (stepOld exampleDecl st0 (.subscribe 0 1 2)).1                      -- B: indications
+    let st2 := (stepOld exampleDecl st1 (.request 0 (.byValue 0) .indication)).1  -- indicate( a ): not subscribed
+    let st3 := (stepOld exampleDecl st2 (.output 0 23)).1                         -- nothing sent …
+    let st4 := (stepOld exampleDecl st3 (.request 0 (.byValue 1) .indication)).1  -- indicate( b ): subscribed
+    (stepOld exampleDecl st2 (.output 0 23)).2 = .pdu [] ∧
+    (stepOld exampleDecl st4 (.output 0 23)).2 = .pdu [] ∧                         -- … and b is stuck
+    (stepOld exampleDecl (stepOld exampleDecl st4 (.confirm 0)).1 (.output 0 23)).2 = .pdu [0x1D, 0x06, 0x00, 0xb1, 0xb2] := by
+  decide
+
+/-- … and the same history on the fixed code: `indicate( b )` is transmitted by the next `l2cap_output` -/
+example :
+    let st0 := State.init exampleDecl [[0xaa], [0xb1, 0xb2]] 2
+    let st1 := (step exampleDecl st0 (.subscribe 0 1 2)).1
+    let st2 := (step exampleDecl st1 (.request 0 (.byValue 0) .indication)).1
+    let st3 := (step exampleDecl st2 (.output 0 23)).1
+    let st4 := (step exampleDecl st3 (.request 0 (.byValue 1) .indication)).1
     (step exampleDecl st2 (.output 0 23)).2 = .pdu [] ∧
-    (step exampleDecl st4 (.output 0 23)).2 = .pdu [] ∧                         -- … and b is stuck
-    (step exampleDecl (step exampleDecl st4 (.confirm 0)).1 (.output 0 23)).2 = .pdu [0x1D, 0x06, 0x00, 0xb1, 0xb2] := by
+    (step exampleDecl st4 (.output 0 23)).2 = .pdu [0x1D, 0x06, 0x00, 0xb1, 0xb2] := by
+  decide
+
+/-! ## C11 — an indication that is dequeued but not transmitted must not block the connection
+
+  "Indications are confirmed one at a time and never lost": `l2cap_output` after fixes/attnotify-03.
+  `at_most_one_outstanding` (Outstanding.lean) is the "one at a time" half on the server level model;
+  the theorems below are the "never blocked by an indication that was not sent" half. -/
+
+theorem setConn_get (st : State) (ci : Nat) (conn x : Conn) (hconn : st.conns[ci]? = some conn) :
+    (setConn st ci x).conns[ci]? = some x := by
+  have hci : ci < st.conns.length := by
+    cases hlt' : decide (ci < st.conns.length) with
+    | true => exact of_decide_eq_true hlt'
+    | false =>
+      have : st.conns.length ≤ ci := Nat.le_of_not_lt (of_decide_eq_false hlt')
+      rw [List.getElem?_eq_none this] at hconn; cases hconn
+  simp only [setConn, List.getElem?_set_self hci]
+
+/-- what `l2cap_output` leaves behind when it dequeued `(k, i)` and produced no PDU: the connection
+    with the dequeued queue `q`, treated by `unsentQueue k` -/
+theorem output_unsent_state (d : ServerDecl) (st : State) (ci : Nat) (conn : Conn) (size : Nat) (q : Spec) (k : Kind) (i : Nat)
+    (hconn : st.conns[ci]? = some conn)
+    (hdeq : conn.queue.step .deq = (q, .entry (some (k, i))))
+    (hp : (l2capOutput d st ci size).2 = .pdu []) :
+    (l2capOutput d st ci size).1.conns[ci]? = some { conn with queue := unsentQueue k q } := by
+  simp only [l2capOutput, l2capOutputGen, hconn, hdeq] at hp ⊢
+  cases hc : conn.cccd[(findByIndex d i).cccdIndex]? with
+  | none => simp [hc] at hp
+  | some flags =>
+    simp only [hc] at hp ⊢
+    split at hp
+    · rename_i hcond
+      rw [if_pos hcond]
+      split at hp
+      · simp at hp
+      · rename_i hr
+        exact setConn_get st ci conn _ hconn
+      · simp at hp
+    · rename_i hcond
+      rw [if_neg hcond]
+      exact setConn_get st ci conn _ hconn
+
+/-- **C11** `unsent_indication_does_not_block`: for every declaration and every state (hence after
+    every history), after an `l2cap_output` that dequeued an indication but produced no PDU (the
+    client is not subscribed for indications of that characteristic, the value is not readable, or
+    the buffer is below 3 bytes) **no confirmation is outstanding**; everything else of the
+    connection is as the dequeue left it. -/
+theorem unsent_indication_does_not_block (d : ServerDecl) (st : State) (ci : Nat) (conn : Conn) (size : Nat) (q : Spec) (i : Nat)
+    (hconn : st.conns[ci]? = some conn)
+    (hdeq : conn.queue.step .deq = (q, .entry (some (.indication, i))))
+    (hp : (l2capOutput d st ci size).2 = .pdu []) :
+    ∃ conn', (l2capOutput d st ci size).1.conns[ci]? = some conn' ∧
+      conn'.queue.outstanding = none ∧ conn'.queue.levels = q.levels ∧
+      conn'.cccd = conn.cccd ∧ conn'.clientMtu = conn.clientMtu :=
+  ⟨_, output_unsent_state d st ci conn size q .indication i hconn hdeq hp, rfl, rfl, rfl, rfl⟩
+
+/-- … "so a later subscribed indication is sent": with no confirmation outstanding a pending
+    indication cannot be held back — the next dequeue returns a request (C11/C12:
+    `dequeue_exactly_once_in_priority_order` says which), it does not answer "nothing to send". -/
+theorem indication_not_held_back (s : Spec) (hw : WFs s.levels) (ho : s.outstanding = none) (j : Nat)
+    (hp : s.pending j .indication = true) : (s.step .deq).2 ≠ .entry none := by
+  intro h
+  have := (NotifQueue.dequeue_empty_only_if_nothing_sendable s hw h).2 j .indication hp
+  simp [NotifQueue.eligible, ho] at this
+
+/-- the mirror image (a seeded change got exactly this wrong): a *notification* that is dequeued
+    but not transmitted leaves the outstanding confirmation of an earlier, transmitted indication
+    untouched — `indication_confirmed()` is not called on that path -/
+theorem unsent_notification_keeps_outstanding (d : ServerDecl) (st : State) (ci : Nat) (conn : Conn) (size : Nat) (q : Spec) (i : Nat)
+    (hconn : st.conns[ci]? = some conn)
+    (hdeq : conn.queue.step .deq = (q, .entry (some (.notification, i))))
+    (hp : (l2capOutput d st ci size).2 = .pdu []) :
+    (l2capOutput d st ci size).1.conns[ci]? = some { conn with queue := q } :=
+  output_unsent_state d st ci conn size q .notification i hconn hdeq hp
+
+/-- non-vacuity: the history of `unsubscribed_indication_blocks_witness` on the fixed code reaches
+    the hypotheses of `unsent_indication_does_not_block` -/
+example :
+    let st0 := State.init exampleDecl [[0xaa], [0xb1, 0xb2]] 2
+    let st2 := (step exampleDecl (step exampleDecl st0 (.subscribe 0 1 2)).1 (.request 0 (.byValue 0) .indication)).1
+    (st2.conns[0]?).map (fun conn => (conn.queue.step .deq).2) = some (.entry (some (.indication, 1))) ∧
+    (l2capOutput exampleDecl st2 0 23).2 = .pdu [] := by
   decide
 
 end BluetoeModel.AttNotify
